@@ -201,7 +201,7 @@ cleanup_pthread:
 void
 qb_log_thread_pause(struct qb_log_target *t)
 {
-	if (t->threaded) {
+	if (t->threaded && logt_wthread_lock) {
 		(void)qb_thread_lock(logt_wthread_lock);
 	}
 }
@@ -209,7 +209,7 @@ qb_log_thread_pause(struct qb_log_target *t)
 void
 qb_log_thread_resume(struct qb_log_target *t)
 {
-	if (t->threaded) {
+	if (t->threaded && logt_wthread_lock) {
 		(void)qb_thread_unlock(logt_wthread_lock);
 	}
 }
